@@ -4452,7 +4452,15 @@ class Parser:
 
     def _parse_hint(self) -> exp.Hint | None:
         if self._match(TokenType.HINT) and self._prev_comments:
-            return exp.maybe_parse(self._prev_comments[0], into=exp.Hint, dialect=self.dialect)
+            hint = exp.maybe_parse(self._prev_comments[0], into=exp.Hint, dialect=self.dialect)
+
+            # The hint is parsed from the comment's text: offsets in it are not offsets in the statement
+            for node in hint.walk():
+                if node._meta:
+                    for key in exp.POSITION_META_KEYS:
+                        node._meta.pop(key, None)
+
+            return hint
 
         return None
 
